@@ -99,6 +99,7 @@ pub fn run(args: &[String]) -> Value {
                         let name = w["n"].as_str().unwrap();
                         match batch[p - 1].1.get(name) {
                             Some(g) => diff_value(&w["v"], g, name, &mut d),
+                            None if !NAMES.contains(&name) => panic!("harness error: the session pool binds `{name}`, which api.rs does not watch (add it to NAMES)"),
                             None => d.push(format!("{name} unbound")),
                         }
                     }
